@@ -4,6 +4,11 @@ Full lattice (segment length x f_n/fs x damping x channels x fs x band x method 
 single-mode spectral matrices through the real `fdd.EFDD_mpe`, and through the `EFDD` / `FSDD` classes in
 a `SingleSetup` (the spectral estimator of `run()` is replaced by the designed matrix, everything after it
 is the library's). Tolerances are the property's own numbers.
+
+The sampling-frequency axis has two parts: whole numbers of Hz (1, 100; full lattice, five levels) and rates that are NOT a
+whole number of Hz (0.64 ... 102.4 Hz, `FS_FRAC`; the property says "any fs"), walked on a covering sub-lattice (every
+admissible (nxseg, f_n/fs, xi) x every such rate x both methods x both routes, channels and band rotating with the lattice
+coordinates, level 1).
 """
 import numpy as np
 
@@ -20,13 +25,19 @@ LEVEL_TEXT = ("every admissible point of the stated lattice is executed on the r
 RULE = ("a case is one admissible lattice point (nxseg, f_n/fs, xi, channels, fs, band, method), judged at three levels and, "
         "at level 1, through the setup class as well; admissible = half-power bandwidth 2 xi f_n spans >= 4 lines and the half "
         "record holds >= 30 periods, decided from (f_n, xi, nxseg, fs) only; every admissible case is non-trivial (the estimate "
-        "comes from a fit of 20 correlation extrema of the inverse-transformed bell); distinct by lattice coordinates")
+        "comes from a fit of 20 correlation extrema of the inverse-transformed bell); distinct by lattice coordinates; the points at a "
+        "sampling rate that is not a whole number of Hz are judged at level 1 only (function and setup class)")
 ASSUMPTIONS = [
     "the spectral matrix is S(f) phi phi^T + 1e-9 max(S) I with S(f) = 1/((wn^2-w^2)^2 + (2 xi wn w)^2) on the grid k fs/nxseg, "
     "k = 0..nxseg/2 (periodogram convention)",
     "tolerances are the property's calibrated numbers; a loss of accuracy inside them is not seen",
     "first-stage band DF1 = max(2 lines, 0.1 bandwidths); analysis band DF2 = 4 or 6 bandwidths; default sppk/npmax/MAClim",
     "setup route: pyoma2.functions.fdd.SD_est is replaced by a function returning the designed (freq, Sy) while run() executes",
+    "sampling rates that are not a whole number of Hz (0.64, 1.6, 2.56, 6.25, 12.5, 102.4 Hz: 1/fs is not the inverse of an integer, "
+    "fs differs from the nearest integer by 0.4 % ... 56 %) are walked on a covering sub-lattice, not on the full one: every admissible "
+    "(nxseg, f_n/fs, xi) x every such rate x both methods x both routes at level 1, with the channel count (and, in the quick tier, the "
+    "band) rotating with the lattice coordinates so that every (rate, channels) and (rate, band) pair occurs; an error that needs a "
+    "particular (channels, band, level) together with a non-integer rate can be missed",
 ]
 
 NXSEG = (1024, 2048, 4096, 8192)
@@ -36,6 +47,9 @@ NCH = (2, 4, 6)
 BANDS = (4.0, 6.0)
 METHODS = ("EFDD", "FSDD")
 SCALES = (1.0, 1e-6, 1e6, 4e-16, 1e15)
+# sampling rates that are not a whole number of Hz (the statement says "any fs"): decimated 100 Hz records (12.5, 6.25), the
+# power-of-two rates of analysers (2.56, 102.4, 0.64), 1.6; both roundings (up: 0.64, 1.6, 2.56; down: 6.25, 12.5, 102.4)
+FS_FRAC = (0.64, 1.6, 2.56, 6.25, 12.5, 102.4)
 TOL_MAC, TOL_F, TOL_XI, TOL_SCALE = 0.999, 0.025, 0.15, 1e-6
 
 
@@ -85,6 +99,9 @@ def judge(t, route, meth, fn, xi, phi, Fn, Xi, Phi, case):
         t.violation(f"accuracy:shape:{meth}@{route}", f"MAC={1 - em:.6f}", case)
         bad = True
     t.outcomes[f"{meth} {'outside' if bad else 'within'} tolerance ({route})"] += 1
+    fs = case.get("fs")
+    if fs is not None and fs != round(fs):          # vacuity monitor of the non-integer part of the fs axis (ground truth only)
+        t.outcomes[f"{'outside' if bad else 'within'} tolerance at fs = {fs:g} Hz ({meth}, {route})"] += 1
     return f_e, x_e
 
 
@@ -162,9 +179,26 @@ def setup_route(t, seed, nxseg, fs, meth, freq, Sy, fn, xi, phi, DF1, DF2, case)
     judge(t, "setup", meth, fn, xi, phi, Fn, Xi, Phi, dict(case, route="setup"))
 
 
+def frac_points(nxseg, frel, xi, thorough):
+    """The covering sub-lattice of the non-integer sampling rates at one (nxseg, f_n/fs, xi): (fs, channels, band) triples.
+    Channels and band rotate with the lattice coordinates only (no payload, no hash order); the thorough tier takes both bands."""
+    i = NXSEG.index(nxseg), FREL.index(frel), XI.index(xi)
+    out = []
+    for k, fs in enumerate(FS_FRAC):
+        nch = NCH[(i[1] + i[2] + k) % len(NCH)]
+        bands = BANDS if thorough else (BANDS[(sum(i) + k) % len(BANDS)],)
+        out += [(fs, nch, band) for band in bands]
+    return out
+
+
 def item(it):
-    seed, nxseg, frel, xi, fss, nchs = it
+    seed, nxseg, frel, xi, fss, nchs = it[:6]
     t = Tally()
+    if len(it) > 6:                                  # non-integer sampling rates: it[6] = thorough flag
+        for fs, nch, band in frac_points(nxseg, frel, xi, it[6]):
+            for meth in METHODS:
+                run_case(t, seed, nxseg, frel, xi, nch, fs, band, meth, scales=SCALES[:1])
+        return t
     for nch in nchs:
         for fs in fss:
             for band in BANDS:
@@ -181,6 +215,10 @@ def explore(ctx):
     nxs = NXSEG if ctx.thorough else NXSEG[:2]
     fss = (1.0, 100.0, 12.8) if ctx.thorough else (1.0, 100.0)
     ctx.bounds.update({"nxseg": list(nxs), "fn/fs": list(FREL), "xi": list(XI), "channels": list(NCH), "fs": list(fss),
+                       "fs, not a whole number of Hz": list(FS_FRAC),
+                       "sub-lattice of the non-integer fs": "every (nxseg, fn/fs, xi) x fs x method x both routes, level 1; channels = "
+                       "NCH[(i_f + i_xi + k) mod 3], band = " + ("both" if ctx.thorough else "BANDS[(i_nxseg + i_f + i_xi + k) mod 2]")
+                       + " with i_* the indices on the axes and k the index of fs",
                        "DF2 (bandwidths)": list(BANDS), "method": list(METHODS), "level (factor on Sy)": list(SCALES),
                        "routes": ["fdd.EFDD_mpe", "EFDD/FSDD class in SingleSetup (level 1)"],
                        "admissible": "2 xi f_n nxseg/fs >= 4 and f_n nxseg/(2 fs) >= 30"})
@@ -193,10 +231,13 @@ def explore(ctx):
                     items += [(ctx.seed, nxseg, frel, xi, (fs,), (nch,)) for nch in NCH for fs in fss]
                 else:
                     items += [(ctx.seed, nxseg, frel, xi, fss, (nch,)) for nch in NCH]
+                items.append((ctx.seed, nxseg, frel, xi, FS_FRAC, None, bool(ctx.thorough)))
     ctx.guard_share_limit = 0.5
     ctx.pmap(item, items, chunksize=1)
     ctx.require("EFDD within tolerance (function)", "FSDD within tolerance (function)", "EFDD within tolerance (setup)",
                 "FSDD within tolerance (setup)", "level-invariant")
+    ctx.require(*[f"within tolerance at fs = {fs:g} Hz ({meth}, {route})"
+                  for fs in FS_FRAC for meth in METHODS for route in ("function", "setup")])
 
 
 def replay(case):
